@@ -568,6 +568,11 @@ func (dht *FullRT) GetClosestPeers(ctx context.Context, key string) ([]peer.ID, 
 					if _, ok := ipGroupCounts[ipGroup]; !ok {
 						ipGroupCounts[ipGroup] = make(map[peer.ID]struct{})
 					}
+					if _, ok := ipGroupCounts[ipGroup][p]; ok {
+						// This peer is already counted in this ip group (it has
+						// several addresses in it): don't count it against itself.
+						continue
+					}
 					if len(ipGroupCounts[ipGroup]) >= dht.ipDiversityFilterLimit {
 						// This ip group is already overrepresented, skip this peer
 						continue PeersLoop
